@@ -97,6 +97,27 @@ impl Analyzed {
     /// Parse and analyse `text` (one file, project `prj`).  Errors reject the
     /// text; warnings are kept.
     pub fn new(text: &str) -> Result<Analyzed, Rejected> {
+        // a panic inside the analyzer is a defect of its own (C11), not of
+        // the property a caller is checking: report it as a rejection
+        match std::panic::catch_unwind(|| Self::new_unguarded(text)) {
+            Ok(r) => r,
+            Err(e) => {
+                let msg = if let Some(s) = e.downcast_ref::<&str>() {
+                    s.to_string()
+                } else if let Some(s) = e.downcast_ref::<String>() {
+                    s.clone()
+                } else {
+                    "panic".into()
+                };
+                Err(Rejected {
+                    stage: "analyzer-panic",
+                    errors: vec![("panic".into(), msg)],
+                })
+            }
+        }
+    }
+
+    fn new_unguarded(text: &str) -> Result<Analyzed, Rejected> {
         symbol_table::clear();
         let metadata = Metadata::create_default("prj").map_err(|e| Rejected {
             stage: "metadata",
@@ -265,4 +286,43 @@ pub fn read_outputs_once(a: &Analyzed, top: &str, config: &Config, outputs: &[Po
     };
     let mut t = a.run(top, config, &stim)?;
     Ok(t.steps.pop().unwrap_or_default())
+}
+
+/// Like [`Analyzed::run`], but samples the variables named by the
+/// hierarchical `paths` (`v3`, `un7.v2`; element 0 of an array) after every
+/// step, through `Simulator::get_var`.  `None` = no such variable in the
+/// simulator's tree (e.g. optimised away).
+pub fn run_deep(a: &Analyzed, top: &str, config: &Config, stim: &Stimulus, paths: &[String]) -> Result<Vec<Vec<Option<Sample>>>, String> {
+    let mut sim = a.simulator(top, config)?;
+    let clk = match &stim.clock {
+        Some(c) => sim.get_clock(c).ok_or_else(|| format!("no clock port {c}"))?,
+        None => Event::Clock(VarId::SYNTHETIC),
+    };
+    let rst = match &stim.reset {
+        Some(r) => Some(sim.get_reset(r).ok_or_else(|| format!("no reset port {r}"))?),
+        None => None,
+    };
+    output_buffer::enable();
+    let mut out = vec![];
+    for st in &stim.steps {
+        for (p, v) in stim.inputs.iter().zip(&st.values) {
+            sim.set(&p.name, to_value(v, p.width));
+        }
+        match (&rst, st.reset) {
+            (Some(r), true) => sim.step_reset(&clk, r),
+            _ => sim.step(&clk),
+        }
+        let row = paths
+            .iter()
+            .map(|p| {
+                sim.get_var(p).map(|v| Sample {
+                    value: v.payload().into_owned(),
+                    xz: v.mask_xz().into_owned(),
+                })
+            })
+            .collect();
+        out.push(row);
+    }
+    let _ = output_buffer::take();
+    Ok(out)
 }
